@@ -150,6 +150,49 @@ func classifyPartValue(p *Program, ps partStore) (string, bool, string) {
 			}
 		}
 	}
+	// …or by a module helper that is handed the archive entry (*zip.File) and opens it itself:
+	// what it returns is classified like a value stored directly
+	{
+		var hc *ssa.Call
+		idx := 0
+		switch x := v.(type) {
+		case *ssa.Call:
+			hc = x
+		case *ssa.Extract:
+			hc, _ = x.Tuple.(*ssa.Call)
+			idx = x.Index
+		}
+		if hc != nil && ps.MU.Block() != nil {
+			if cal := staticCallee(hc); cal != nil && p.inModule(cal) && len(cal.Blocks) > 0 {
+				takesEntry := false
+				for _, par := range cal.Params {
+					if typeIs(par.Type(), "archive/zip", "File") {
+						takesEntry = true
+					}
+				}
+				if takesEntry {
+					kind, okAll, why := "", true, ""
+					n := 0
+					for _, ret := range returnsOf(cal) {
+						if idx >= len(ret.Results) || isNilConst(ret.Results[idx]) {
+							continue
+						}
+						n++
+						k, o, w := classifyPartValue(p, partStore{Fn: cal, Key: ps.Key, MU: &ssa.MapUpdate{Value: ret.Results[idx]}})
+						if !o {
+							okAll, why = false, w
+						} else if why == "" {
+							why = w
+						}
+						kind = k
+					}
+					if n > 0 {
+						return kind, okAll, why + " (in " + shortName(cal) + ")"
+					}
+				}
+			}
+		}
+	}
 	if _, isMake := v.(*ssa.MakeSlice); isMake {
 		return "copy", true, "fresh buffer filled by copy()"
 	}
